@@ -444,7 +444,7 @@ def main(ctx):
 
     # ---------------------------------------------------------------- (iii) side clauses on the real code
     side = {"linearity": 0, "identity_variants": 0, "near_identity": 0, "binary": 0, "binary_blocked_by_c02": 0,
-            "large_n_values": 0}
+            "large_n_values": 0, "item_lists": 0}
     sub = [c for f, c in vcs if c["n"] <= (11 if ctx.thorough else 9)]
     rng.shuffle(sub)
     for case in sub[: (300 if ctx.thorough else 80)]:
@@ -503,6 +503,18 @@ def main(ctx):
                      f"{CLASS[b]}(n={n}) on float data with near-identity entries 1 + 1e-6*E: result differs from the oracle by "
                      f"{err:.2e} (tolerance 1e-10; an entry wrongly treated as the identity gives ~1e-6)")
     # the index-based backend on the same matrices item by item
+    # (a) the item lists handed to the real BinaryBackend have the qubits `itemQubits` (the theorem's item list) names
+    ireqs, iwant = [], []
+    for f, c in vcs:
+        for li in range(len(c["layers"])):
+            one = dict(c, layers=[c["layers"][li]])
+            ireqs.append({"op": "items", "layer": L.codes_of(c, li)})
+            iwant.append({"ok": [it[1] for it in L.items_of(one)]})
+    igot = drv.batch(ireqs)
+    side["item_lists"] = len(ireqs)
+    for rq, a, b in zip(ireqs, iwant, igot):
+        if a != b:
+            unexplained.append({"request": rq, "harness_items": a, "model": b})
     blocked = []
     bsub = [c for f, c in vcs if c["n"] <= (10 if ctx.thorough else 8) and c["layers"]]
     rng.shuffle(bsub)
